@@ -128,6 +128,8 @@ profile_by_name(const std::string &name, const std::string &prop, int tier)
         } else if (name == "scrub_entry") { // exploration aid for C13: residues after direct / synchronous-burst calls
                 p.oracles = OR_FIFO | OR_SCRUB;
                 p.max_len = 600;
+        } else if (name == "f12") { // exploration aid: sync burst while async jobs are parked
+                p.oracles = OR_FIFO | OR_DESC | OR_SOLO;
         } else if (name == "keyprep") { // C11
                 p.oracles = OR_FIFO | OR_REF;
                 p.max_ops = 60;
@@ -801,6 +803,69 @@ gen_plan_dmisuse(const ProfileCfg &pc, uint64_t run_seed)
                 op.b = (int) r.below(1u << 30);
                 p.ops.push_back(op);
         }
+        return p;
+}
+
+// F12 (exploration aid): a synchronous burst issued while asynchronous jobs of the same algorithm family are parked
+Plan
+gen_plan_f12(const ProfileCfg &pc, uint64_t run_seed)
+{
+        Rng r(run_seed);
+        Plan p;
+        p.seed = run_seed;
+        p.profile = pc.name;
+        p.prop = pc.prop;
+        p.oracles = pc.oracles;
+        p.task_cfg.push_back(pc.force_cfg >= 0 ? pc.force_cfg : (int) r.below(NCFG));
+        p.warmup = r.chance(0.5) ? 0 : r.below(256);
+        GenOpts go;
+        go.len_profile = LEN_MIXED;
+        go.max_len = 400;
+        go.offsets = false;
+        // family shared by the two APIs
+        const bool hash_family = r.chance(0.4);
+        Suite sync;
+        if (hash_family) {
+                static const int hs[] = { IMB_AUTH_HMAC_SHA_1, IMB_AUTH_HMAC_SHA_256, IMB_AUTH_HMAC_SHA_512, IMB_AUTH_SHA_1, IMB_AUTH_SHA_256,
+                                          IMB_AUTH_AES_CMAC };
+                sync.hash = (uint8_t) hs[r.below(6)];
+                sync.order = IMB_ORDER_HASH_CIPHER;
+        } else {
+                static const int cs[] = { IMB_CIPHER_CBC, IMB_CIPHER_CFB };
+                sync.cipher = (uint8_t) cs[r.below(2)];
+                sync.key_len = (uint16_t) r.pick(cipher_key_lens(sync.cipher));
+                sync.dir = IMB_DIR_ENCRYPT; // the multi-buffer direction
+        }
+        const uint32_t na = r.range(1, 6);
+        for (uint32_t i = 0; i < na; i++) {
+                Suite a = sync;
+                if (hash_family) {
+                        if (r.chance(0.5)) { // chained: cipher stage first, hash stage parked
+                                a.cipher = IMB_CIPHER_CNTR;
+                                a.key_len = 16;
+                                a.dir = IMB_DIR_ENCRYPT;
+                                a.order = IMB_ORDER_CIPHER_HASH;
+                        }
+                } else if (r.chance(0.6)) { // chained: cipher parked, hash stage still to come
+                        a.hash = r.chance(0.5) ? IMB_AUTH_HMAC_SHA_1 : IMB_AUTH_SHA_256;
+                        a.order = IMB_ORDER_CIPHER_HASH;
+                }
+                Op op;
+                op.kind = OP_SUBMIT;
+                op.jobs.push_back(gen_job(r, a, go));
+                p.ops.push_back(op);
+        }
+        Op sb;
+        sb.kind = OP_SYNC_BURST;
+        sb.a = hash_family ? 1 : 0;
+        sb.b = 12;
+        const uint32_t n = r.range(1, 12);
+        for (uint32_t i = 0; i < n; i++)
+                sb.jobs.push_back(gen_job(r, sync, go));
+        p.ops.push_back(sb);
+        Op fl;
+        fl.kind = OP_FLUSH_ALL;
+        p.ops.push_back(fl);
         return p;
 }
 
